@@ -92,6 +92,12 @@ def segLine0 (st : SegSt) (line : String) : SegSt × String :=
       (st, m ++ " ## " ++ s!"{sf.length} {(crc32c sf).toNat}")
     | none => (st, m)
   | ["filehex"] => (st, toHex st.file)
+  | ["hdrat", off] =>
+    let o := nat! off
+    if o + 8 > st.file.length then (st, "out-of-file") else
+    let b := (st.file.drop o).take 8
+    let g (i : Nat) : Nat := (b.getD i 0).toNat
+    (st, s!"{g 0} {g 4 + g 5 * 256 + g 6 * 65536 + g 7 * 16777216}")
   | ["setfile", hex] =>
     match parseHex hex with
     | none => (st, "bad-op")
@@ -126,7 +132,7 @@ def segLine (st : SegSt) (line : String) : SegSt × String :=
   | some op =>
     if ["app", "tear", "seal", "sealed", "last", "get"].contains op ∧ ¬ st.hasW then (st, "err nowriter")
     else if op = "sget" ∧ ¬ st.hasR then (st, "err noreader")
-    else if ["file", "filehex", "mut", "trunc", "recover", "opensealed", "dump"].contains op ∧ ¬ st.hasFile then (st, "err nofile")
+    else if ["file", "filehex", "hdrat", "mut", "trunc", "recover", "opensealed", "dump"].contains op ∧ ¬ st.hasFile then (st, "err nofile")
     else segLine0 st line
   | none => (st, "bad-op")
 
